@@ -253,3 +253,10 @@ def h1(ctx: Ctx) -> None:
     from .c02 import r2 as heap_rule
 
     heap_rule(ctx)
+
+
+@rule("C01.H2", "premise shared with C19: tick rounding never makes a limit more aggressive than submitted (buy down, sell up)", "T6 (same rule as C19.R2)", floor=2)
+def h2(ctx: Ctx) -> None:
+    from .c19 import r2 as rounding_rule
+
+    rounding_rule(ctx)
